@@ -246,6 +246,46 @@ pub fn main(args: &[String]) -> i32 {
             }
         }
     }
+    // the two ways of configuring the builder - `.difficulty(&d)` and its own setters - under lazer DifficultyAdjust mods that
+    // also carry a value for the attribute: the explicit value wins on both paths
+    {
+        use rosu_mods::{generated_mods as gm, GameMod};
+        for (mode, da) in [
+            ("osu", GameMod::DifficultyAdjustOsu(gm::DifficultyAdjustOsu { circle_size: Some(2.0), approach_rate: Some(3.0), drain_rate: Some(4.0), overall_difficulty: Some(1.0), ..Default::default() })),
+            ("catch", GameMod::DifficultyAdjustCatch(gm::DifficultyAdjustCatch { circle_size: Some(2.0), approach_rate: Some(3.0), drain_rate: Some(4.0), overall_difficulty: Some(1.0), ..Default::default() })),
+            ("taiko", GameMod::DifficultyAdjustTaiko(gm::DifficultyAdjustTaiko { drain_rate: Some(4.0), overall_difficulty: Some(1.0), ..Default::default() })),
+        ] {
+            let mut lm = rosu_mods::GameMods::new();
+            lm.insert(da);
+            let mut m = Beatmap::default();
+            m.mode = gm(mode);
+            for field in ["ar", "cs", "hp", "od"] {
+                for wm in [false, true] {
+                    agree += 1;
+                    let y = 6.5f32;
+                    let d = match field {
+                        "ar" => Difficulty::new().mods(lm.clone()).ar(y, wm),
+                        "cs" => Difficulty::new().mods(lm.clone()).cs(y, wm),
+                        "hp" => Difficulty::new().mods(lm.clone()).hp(y, wm),
+                        _ => Difficulty::new().mods(lm.clone()).od(y, wm),
+                    };
+                    let via_difficulty = guarded(|| format!("{:?}", m.attributes().difficulty(&d).build()));
+                    let own = m.attributes().mods(lm.clone());
+                    let own = match field {
+                        "ar" => own.ar(y, wm),
+                        "cs" => own.cs(y, wm),
+                        "hp" => own.hp(y, wm),
+                        _ => own.od(y, wm),
+                    };
+                    let via_setters = guarded(|| format!("{:?}", own.build()));
+                    if via_difficulty != via_setters {
+                        mism.push(json!({"what": "builder_difficulty_vs_setters_under_difficulty_adjust", "field": field, "mode": mode, "mods": "DA", "rate": Value::Null, "value": y, "with_mods": wm,
+                            "expected": format!("{via_setters:?}").chars().take(400).collect::<String>(), "observed": format!("{via_difficulty:?}").chars().take(400).collect::<String>(), "osu_text": ""}));
+                    }
+                }
+            }
+        }
+    }
     let mut by: BTreeMap<String, u64> = BTreeMap::new();
     for m in &mism {
         *by.entry(format!("{}/{}", m["what"].as_str().unwrap_or("?"), m["field"].as_str().or(m["case"]["mode"].as_str()).unwrap_or("-"))).or_default() += 1;
